@@ -46,6 +46,16 @@ def texts_for(entry, kind):
     except UnicodeError:
         pass
 
+    if len(entry['lf']) > 1:
+        # a character whose last byte is 0x0A followed by one that starts
+        # with 0x20 (big-endian families), inside an indented line
+        for pair in ('\u4e0a\u201c', '\u0a41\u2000'):
+            try:
+                if pair.encode(entry['canon']).decode(entry['canon']) == pair:
+                    extra.append('a' + nl + 'x' + pair + 'y' + nl)
+            except UnicodeError:
+                pass
+
     if kind == 'dos':
         # a first line ending exactly at an 8 KiB boundary, followed by a
         # line that starts with a space
@@ -205,6 +215,12 @@ def program_for(case, name):
 
     if case['indent']:
         dkw['diff_type'] = 'binary'
+
+    if case['canon'] in ('utf-16', 'utf-32') and case['indent'] == 0:
+        # the diff's bytes in the other byte order, with its BOM: the
+        # section's newline is still the codec's own
+        be = case['canon'] + '-be'
+        dkw['content'] = '\ufeff'.encode(be) + case['text'].encode(be)
 
     return {'encoding': 'utf-8', 'calls': [
         ['preamble', kw],
